@@ -348,3 +348,105 @@ FAMILIES3 = [fam_existing_generated_name, fam_existing_var_names]
 def program3(r):
     fam = r.choice(FAMILIES3)
     return fam(r) + HARNESS, fam.__name__
+
+
+# ------------------------------------------------------------------------------------------- fourth wave: round-robin families
+
+TQ = '"' * 3
+
+
+def fam_guard_compound(r):
+    """a long guard that returns, followed by a compound statement that cannot be passed and is branchier than the guard;
+    0, 1 or 2 blank lines between the function and what follows"""
+    n = r.randint(3, 5)
+    pool = ['print("already claimed")', "print(x)", "print(y)", "print('g', x)", "print(x, y)", "print(x + 1)", 'print("busy")']
+    guard = "".join(f"        {st}\n" for st in (r.sample(pool, n) if r.random() < 0.7 else [f"print('g{i}', x)" for i in range(n)]))
+    inner = "".join(f"        if y == {i}:\n            return {i + 10}\n" for i in range(r.randint(1, 3)))
+    head = r.choice(["    with contextlib.nullcontext():\n", "    while True:\n", "    for _ in iter(int, 1):\n"])
+    tail = r.choice(["        return x + y\n", "        return 1\n", "        print(y)\n        return 1\n", "        return -1\n"])
+    blanks = "\n" * r.choice([0, 0, 1, 2])
+    return f"import contextlib\n\n\ndef f(x, y):\n    if x > {r.randint(0, 3)}:\n{guard}        return 0\n{head}{inner}{tail}{blanks}"
+
+
+def fam_local_import_multiline(r):
+    """a function-local import directly followed by a statement whose multi-line string continues at column 0"""
+    mod = r.choice(["textwrap", "json", "os.path", "collections"])
+    pre = r.choice(["", "    # help text\n", "\n"])
+    return (f"def f(x, y):\n    import {mod}\n{pre}    text = {TQ}\nUsage: {{}} [options]\n    -h  show this help {r.randint(0, 9)}\n{TQ}.format(x)\n"
+            f"    return len(text) + y, {mod}.__name__\n")
+
+
+def fam_multiline_blocks(r):
+    """multi-line strings with column-0 content inside nested blocks, next to statements rules like to move or delete"""
+    k = r.randint(0, 9)
+    return (f"def f(x, y):\n    out = []\n    for i in range(3):\n        if i == x:\n            s = {TQ}\nrow {k}\n  indented\n{TQ}\n            out.append(s)\n"
+            f"        else:\n            out.append('a' + {TQ}a\nb{TQ})\n    if False:\n        out.append({TQ}\ndead\n{TQ})\n    return ''.join(out), y\n")
+
+
+def fam_long_pipeline(r):
+    """a value handed through many single-use names with a little work at each step"""
+    k = r.randint(6, 11)
+    ops = ["+ 1", "* 2", "- y", "", "", ""]
+    lines = ["    v0 = x + y"] + [f"    v{i} = v{i - 1} {r.choice(ops)}".rstrip() for i in range(1, k)]
+    return "def f(x, y):\n" + "\n".join(lines) + f"\n    return v{k - 1}\n"
+
+
+def fam_comp_then_mutate(r):
+    """a comprehension (or generator) bound to a name, its input mutated in place or only read, then one aggregate use"""
+    mut = r.choice(["src.append(100)", "src[0] = 50", "del src[0]", "src.sort(reverse=True)", "src.insert(0, 9)", "print(len(src))", "other = src", "src += [4]", "src = src + [4]"])
+    agg = r.choice(["sum", "len", "max", "sorted", "list", "any", "all"])
+    comp = r.choice(["[v * 2 for v in src]", "[v for v in src if v % 2]", "{v + 1 for v in src}", "(v * 3 for v in src)"])
+    return f"def f(x, y):\n    src = [3, 1, 2, x]\n    held = {comp}\n    {mut}\n    return {agg}(held), len(src), y\n"
+
+
+def fam_next_iter(r):
+    """conditions that evaluate builtins which raise: the formatter must leave them alone, and the program keeps its except path"""
+    e = r.choice(["next(iter(()))", "next(zip())", "'a'.split(sep='')", "int('x')", "max([])", "' '.split(sep=' ')", "'a b'.split(maxsplit=0)", "(255).to_bytes(length=2, byteorder='big')"])
+    return (f"def f(x, y):\n    try:\n        if {e}:\n            return 'T'\n        return 'F'\n    except (StopIteration, ValueError, RuntimeError) as e:\n        return type(e).__name__\n")
+
+
+FAMILIES4 = [fam_guard_compound, fam_local_import_multiline, fam_multiline_blocks, fam_long_pipeline, fam_comp_then_mutate, fam_next_iter]
+
+
+def corpus4(per_family=12):
+    import random
+
+    out = []
+    for fam in FAMILIES4:
+        r = random.Random("4:" + fam.__name__)
+        for _ in range(per_family):
+            out.append((fam(r) + HARNESS, fam.__name__))
+    return out
+
+
+def module_twin(src):
+    """the same computation at module level: `def f(x, y): body; return E` + harness becomes `x = 3; y = 2; body; print(E)`
+    (rules treat module scope and function scope differently).  None when f has other returns or the text does not dedent."""
+    import ast
+    import textwrap
+
+    head = src.split(HARNESS)[0] if HARNESS in src else None
+    if head is None:
+        return None
+    try:
+        tree = ast.parse(head)
+    except SyntaxError:
+        return None
+    fs = [n for n in tree.body if isinstance(n, ast.FunctionDef) and n.name == "f"]
+    if len(fs) != 1 or tree.body[-1] is not fs[0]:
+        return None
+    f = fs[0]
+    if not isinstance(f.body[-1], ast.Return) or f.body[-1].value is None or len(f.body) < 2:
+        return None
+    inner = [n for n in ast.walk(f) if isinstance(n, (ast.Return, ast.Yield, ast.YieldFrom, ast.Global, ast.Nonlocal, ast.FunctionDef, ast.Lambda))]
+    if len(inner) != 2:  # f itself and its final return
+        return None
+    lines = head.splitlines(keepends=True)
+    pre = "".join(lines[: f.lineno - 1 - len(f.decorator_list)])
+    body = textwrap.dedent("".join(lines[f.body[0].lineno - 1: f.body[-1].lineno - 1]))
+    out = pre + "x = 3\ny = 2\n" + body + "print(" + ast.unparse(f.body[-1].value) + ")\n"
+    try:
+        ast.parse(out)
+    except SyntaxError:
+        return None
+    return out
